@@ -7,9 +7,7 @@
 (* Mutant selects a deliberately wrong table; the laws below must FAIL for *)
 (* every mutant (a twin that passes means the laws are vacuous).           *)
 (***************************************************************************)
-EXTENDS Naturals, Sequences
-
-CONSTANT Mutant
+EXTENDS Naturals, Sequences, FPMutant
 
 K3 == {"T", "F", "E"}
 
